@@ -243,24 +243,58 @@ BT = {'plain': ('plain', False), 'debug': ('0', True), 'debugoptimized': ('2', T
 
 
 def ob_buildtype():
-    """buildtype sets debug/optimization unless they are given explicitly (same or higher-priority source)"""
+    """buildtype sets debug/optimization unless they are given explicitly (same or higher-priority source) - in whichever order the entries of one source are
+    written; the command line goes through the real cmdline.parse_cmd_line_options"""
     def h():
+        import argparse
+        from mesonbuild import cmdline
         store = new_store()
         bt = list(BT)[choose(len(BT), 'buildtype')]
         src = choose(3, 'bt_src')
         dicts = [{}, {}, {}]
-        dicts[src][O.OptionKey('buildtype')] = bt
         dbg_given = decide(sym_bool('debug_given')); opt_given = decide(sym_bool('opt_given'))
         dv = bool(choose(2, 'debug_value')); ov = ['0', '1', 'g', '2', '3', 's'][choose(6, 'opt_value')]
-        # cmdline.py orders buildtype before debug/optimization inside one source: emulate by insertion order
+        explicit_first = (dbg_given or opt_given) and choose(2, 'explicit entries written before buildtype') == 1
+        if not explicit_first: dicts[src][O.OptionKey('buildtype')] = bt
         if dbg_given: dicts[src][O.OptionKey('debug')] = dv
         if opt_given: dicts[src][O.OptionKey('optimization')] = ov
+        if explicit_first: dicts[src][O.OptionKey('buildtype')] = bt
         proj, mach, cmd = dicts
+        a = argparse.Namespace(builtin_keys=set(), d_keys=set(cmd), cmd_line_options=cmd)
+        cmdline.parse_cmd_line_options(a); cmd = a.cmd_line_options
         store.initialize_from_top_level_project_call(proj, cmd, mach)
         btv = bt
         check(eq(store.get_value_for(O.OptionKey('buildtype')), btv), 'buildtype stored')
         check(eq(store.get_value_for(O.OptionKey('debug')), dv if dbg_given else BT[btv][1]), 'debug follows buildtype unless given explicitly')
         check(eq(store.get_value_for(O.OptionKey('optimization')), ov if opt_given else BT[btv][0]), 'optimization follows buildtype unless given explicitly')
+        cover('done')
+    return h
+
+
+def ob_buildtype_sub():
+    """the same for a subproject: buildtype and explicit debug / optimization given for the subproject in one of its sources (its own project(default_options),
+    the subproject() call, the command line as sub:opt), in either order"""
+    def h():
+        store = new_store()
+        K = O.OptionKey
+        store.initialize_from_top_level_project_call({}, {}, {})          # the parent keeps buildtype=debug, debug=true, optimization=0
+        bt = list(BT)[choose(len(BT), 'buildtype')]
+        src = choose(3, 'bt_src')           # 0: the subproject's project(default_options)   1: subproject(default_options:)   2: command line sub:opt
+        sub = lambda n: K(n, subproject='subp') if src == 2 else K(n)
+        d = {}
+        dbg_given = decide(sym_bool('debug_given')); opt_given = decide(sym_bool('opt_given'))
+        dv = bool(choose(2, 'debug_value')); ov = ['0', '1', 'g', '2', '3', 's'][choose(6, 'opt_value')]
+        explicit_first = (dbg_given or opt_given) and choose(2, 'explicit entries written before buildtype') == 1
+        if not explicit_first: d[sub('buildtype')] = bt
+        if dbg_given: d[sub('debug')] = dv
+        if opt_given: d[sub('optimization')] = ov
+        if explicit_first: d[sub('buildtype')] = bt
+        sub_defaults, spcall, cmd = [d if src == i else {} for i in range(3)]
+        store.initialize_from_subproject_call('subp', spcall, sub_defaults, cmd, {})
+        check(eq(store.get_value_for('buildtype', 'subp'), bt), 'subproject buildtype stored')
+        check(eq(store.get_value_for('debug', 'subp'), dv if dbg_given else BT[bt][1]), 'subproject: debug follows its buildtype unless given explicitly')
+        check(eq(store.get_value_for('optimization', 'subp'), ov if opt_given else BT[bt][0]), 'subproject: optimization follows its buildtype unless given explicitly')
+        check(eq(store.get_value_for('debug'), True) and eq(store.get_value_for('optimization'), '0') and eq(store.get_value_for('buildtype'), 'debug'), 'the parent keeps its own values')
         cover('done')
     return h
 
@@ -422,7 +456,8 @@ def obligations(tier):
     for cross in (False, True):
         out.append(Obligation('per-machine/%s' % ('cross' if cross else 'native'), ob_machine(cross), dict(option='pkg_config_path / build.pkg_config_path', source='any of 3'), labels=('done',)))
     out.append(Obligation('top/prefix', ob_prefix(), dict(sources='2^3', prefixes=PFX), labels=('done',)))
-    out.append(Obligation('top/buildtype', ob_buildtype(), dict(buildtype='all', source='any of 3', debug_opt='given or not'), labels=('done',)))
+    out.append(Obligation('top/buildtype', ob_buildtype(), dict(buildtype='all', source='any of 3', debug_opt='given or not, written before or after buildtype'), labels=('done',)))
+    out.append(Obligation('subproject/buildtype', ob_buildtype_sub(), dict(buildtype='all', source="the subproject's project() | subproject() call | command line sub:opt", debug_opt='given or not, written before or after buildtype'), labels=('done',)))
     out.append(Obligation('deprecated', ob_deprecated(), dict(forms='dict on feature | dict on array | list on combo | renamed option', value='symbolic among valid, deprecated and invalid spellings'), labels=('accepted', 'rejected')))
     out.append(Obligation('yielding/kinds', ob_yield_kinds(), dict(kinds='boolean, integer -2..2, string <=1, feature, combo, array', parent='symbolic value, then set from the command line'),
                           labels=('yields', 'different-type'), max_paths=2000000))
